@@ -191,7 +191,7 @@ def range_grid(field):
             np.float64(0.4), -INF]
   else:
     ends = [0.0, 0, -0.0, na(0.0, 1), 1.0, 5, 1e6, 1e308, -1e-9, -1.0, NAN, INF, -INF, None, 'x', True,
-            np.float64(2.0)]
+            np.float64(2.0), 2 ** 53, 2 ** 53 + 1]    # adjacent integers that collapse to one float
   vals = [None, 0.1, (0.1,), (0.1, 0.2, 0.3), '0.1', 5, (), [], [1, 2], [0.1, 0.2], {1, 2}, 'ab', (None, None)]
   vals += [(a, b) for a in ends for b in ends]
   return vals
